@@ -127,6 +127,8 @@ def explore(ctx):
     jobs = []
     for i in range(ctx.budget(60, 300)):
         n = rng.randint(1, 9)
+        if i % 6 == 2:
+            n = max(n, 5)            # the renamed cases need a few glyphs
         jobs.append(gen_widths(rng, n))
     if not ctx.quick():
         seqs = [list(s) for L in range(1, 7) for s in itertools.product([0, 500, 600], repeat=L)]
@@ -148,7 +150,7 @@ def explore(ctx):
             # cannot re-read (AttributeError: charset) -- environment limit (DESIGN, observation O1)
             flavor = "ttf"
         lib = "ufoLib2" if i % 3 else "defcon"
-        vertical = rng.random() < 0.3 or i % 5 == 3
+        vertical = (rng.random() < 0.3 or i % 5 == 3) and i % 6 != 2
         if i % 5 == 3 and not (len(desc["glyphs"]) == 1 and desc["glyphs"][0]["name"] == ".notdef"):
             flavor = "otf"          # VORG exists in CFF-flavoured fonts only
         info = {}
@@ -172,9 +174,19 @@ def explore(ctx):
                 fx, fy = (Fr(rng.choice([1, 4, 5, 6, 7]), 8) for _ in range(2))
                 g["contours"] = [[(x + fx, y + fy, t) for x, y, t in c] for c in g["contours"]]
             ctx.klass("otf with roundTolerance < 1/2 and fractional extrema")
+        n3 = [g["name"] for g in desc["glyphs"] if g["name"] != ".notdef"][:3]
+        renamed = i % 6 == 2 and not vertical and len(n3) == 3
+        if renamed:
+            # production names from the lib: two glyphs collide on one name and a LATER glyph literally carries the name the
+            # de-duplication hands out -- the name list of the font must still be one name per glyph
+            desc.setdefault("lib", {})["public.postscriptNames"] = {n3[0]: "dup", n3[1]: "dup", n3[2]: "dup.1"}
+            desc["glyphOrder"] = [g["name"] for g in desc["glyphs"]]
+            kw["useProductionNames"] = True
+            ctx.klass("renamed through public.postscriptNames (collision + literal de-duplicated name)")
         case = {"font": jsonable(desc), "flavor": flavor, "lib": lib, "vertical": vertical, "options": jsonable(kw)}
         try:
             tt = (ufo2ft.compileTTF if flavor == "ttf" else ufo2ft.compileOTF)(build_font(desc, lib), **kw)
+            returned_order = list(tt.getGlyphOrder())
             # the object as returned: header fields exactly as ufo2ft computed them
             hh0 = tt["hhea"]
 
@@ -226,8 +238,11 @@ def explore(ctx):
                 returned_os2, cps[0], cps[-1]))
         if cps and (cps[0] == 0 or cps[-1] > 0xFFFF):
             ctx.klass("boundary code point in cmap")
-        if tt3.getGlyphOrder() != [g["name"] for g in desc["glyphs"]] and ".notdef" in [g["name"] for g in desc["glyphs"]]:
+        if not renamed and tt3.getGlyphOrder() != [g["name"] for g in desc["glyphs"]] and ".notdef" in [g["name"] for g in desc["glyphs"]]:
             ctx.spec_failure(case, "glyph names after reload %r" % tt3.getGlyphOrder())
+        if len(set(returned_order)) != len(returned_order) or tt3.getGlyphOrder() != returned_order:
+            ctx.spec_failure(dict(case, returned_glyph_order=returned_order, reloaded_glyph_order=tt3.getGlyphOrder()),
+                             "the glyph names of the returned font are not unique, or do not survive save and reload")
         if "VORG" in tt3:
             v = tt3["VORG"]
             counts = Counter()
